@@ -251,6 +251,17 @@ func monC07(c *drv.Ctx) {
 				cs.Fail("strmap-load-error", nil, M{"round": round, "n": n, "errors": fmt.Sprint(err1, err2, err3)})
 				return
 			}
+			// the maps must not keep referring to the caller's slices: reuse them as scratch right away
+			for i := range vi {
+				vi[i] = -1
+				vs[i] = "SCRIBBLED"
+				vv[i] = c07Val{A: -1}
+			}
+			kcopy := append([]string(nil), keys...)
+			for i := range keys {
+				keys[i] = "scribbled-key"
+			}
+			keys = kcopy
 			probes := probesFor(r, keys)
 			// keys of the previous round must be gone unless reloaded
 			probes = append(probes, prevProbes...)
@@ -323,6 +334,81 @@ func monC07(c *drv.Ctx) {
 		cs.Count(n >= 2, "size", n)
 		cs.C.ObsMax("max_keys_loaded", int64(n))
 	})
+
+	// (3) long collision chains: many big loads with fresh hash seeds (the longest chain of a load
+	// of 10^5 keys reaches 9 and more only once in ~70 loads)
+	c.Stage("collision-hunt", c.Pick(160, 4000), false, func(cs *drv.Case) {
+		n := 60000 + cs.R.Intn(60000)
+		keys := make([]string, n)
+		vals := make([]int, n)
+		salt := cs.R.Int63()
+		for i := range keys {
+			keys[i] = fmt.Sprintf("%x.%d", uint64(i)*0x9e3779b97f4a7c15+uint64(salt), i%13)
+			vals[i] = i
+		}
+		m := strmap.NewFromSlice(keys, vals)
+		if m.Len() != n {
+			cs.Fail("strmap-len", M{"map": "StrMap[int]"}, M{"n": n, "len": m.Len()})
+			return
+		}
+		for i, k := range keys {
+			if g, ok := m.Get(k); !ok || g != i {
+				cs.Fail("strmap-loaded-key-missing", M{"map": "StrMap[int]", "stage": "collision-hunt"}, M{"n": n, "message": fmt.Sprintf("Get(%q) = (%d, %v), want (%d, true)", k, g, ok, i)})
+				return
+			}
+		}
+		for i := 0; i < 2000; i++ {
+			if _, ok := m.Get(keys[i] + "~"); ok {
+				cs.Fail("strmap-probe", M{"map": "StrMap[int]", "stage": "collision-hunt"}, M{"n": n, "message": "an absent key is reported present"})
+				return
+			}
+		}
+		cs.Desc = M{"keys": n}
+		cs.Count(true, "hunt", cs.Idx)
+		cs.C.Obs("big loads (collision hunt)", 1)
+		cs.C.Obs("map queries compared", int64(n+2000))
+	})
+
+	if c.Thorough() && !c.Slow() && c.Flavour == "plain" {
+		// (4) more than 4 GiB of key bytes in one load (offsets beyond 32 bits); ~7 GB of memory, one case
+		c.Stage("over-4GiB-of-keys", 1, true, func(cs *drv.Case) {
+			const unit = 1 << 30
+			backing := make([]byte, unit+8)
+			for i := range backing {
+				backing[i] = byte(i * 7)
+			}
+			var keys []string
+			var vals []int
+			for i := 0; i < 5; i++ {
+				keys = append(keys, string(backing[i:unit+i-3+i%2])) // five distinct ~1 GiB keys
+				vals = append(vals, 100+i)
+			}
+			keys = append(keys, "small", "")
+			vals = append(vals, 1, 2)
+			m := strmap.NewFromSlice(keys, vals)
+			for i, k := range keys {
+				if g, ok := m.Get(k); !ok || g != vals[i] {
+					cs.Fail("strmap-loaded-key-missing", M{"map": "StrMap[int]", "stage": "over-4GiB"}, M{"key_index": i, "key_len": len(k), "got": g, "ok": ok})
+					return
+				}
+			}
+			seen := 0
+			for i := 0; i < m.Len(); i++ {
+				k, v := m.Item(i)
+				for j := range keys {
+					if len(k) == len(keys[j]) && v == vals[j] && k == keys[j] {
+						seen++
+					}
+				}
+			}
+			if seen != len(keys) {
+				cs.Fail("strmap-item-enumeration", M{"map": "StrMap[int]", "stage": "over-4GiB"}, M{"matched": seen, "want": len(keys)})
+			}
+			cs.Desc = M{"total_key_bytes": "5 GiB"}
+			cs.Count(true, "4gib")
+			cs.C.Obs("loads with more than 4 GiB of key bytes", 1)
+		})
+	}
 
 	if c.Thorough() {
 		c.Stage("large", 4, true, func(cs *drv.Case) {
